@@ -30,6 +30,12 @@ USTACK, THINFO = 8, 1
 
 
 def generate(rng, index, tier):
+    if index % 1009 == 23:
+        # one very deep sample: as many data records as a count the source names (or 30000), frames = 4 per record
+        nrec = worlds.dict_size(rng, 70000 if tier == 'quick' else 270000) or 30000
+        rows = [[0x1000 + 4 * i + j for j in range(4)] for i in range(nrec)]
+        ops = [worlds.op_imap(rng, rng.randbytes(16).hex(), 0x1000), worlds.op_sample(rng, flags=8, thd=None, uhdr=(1, 4 * nrec - rng.randrange(0, 3)), udata=rows)]
+        return {'threads': [{'tid': 500, 'ops': ops}], 'schedule': [], 'via_file': False, 't0': 0x100001, 'faults': [], 'requests': 1, 'huge': nrec}
     nimg = rng.randint(2, 8)
     if index % 307 == 13:
         nimg = [130, 300, 1100, 4200][(index // 307) % 4]       # a process with very many images
